@@ -162,6 +162,8 @@ package ice
 //@ func (*handlerNotifier).Close
 //@   props C11
 //@   site call close#1 assert done-is-closed-at-most-once: !closed(h.done) && arg0 == h.done
+//@   ghostvar waited bool = false
 //@   site call Wait#1 assert only-a-graceful-close-waits-for-running-handlers: graceful
+//@   site call Wait#1 ghost waited := true
 //@   ensures closed-afterwards: closed(h.done)
-//@   ensures graceless-close-does-not-wait: true
+//@   ensures a-graceful-close-always-waits-for-the-handlers-even-if-already-closed: graceful ==> waited
